@@ -54,11 +54,10 @@ SPEC = [
           'early_stop_request_proto = svz.EarlyStopConverter.to_request_proto(early_stop_request)',
           "spec_name = study.study_spec.WhichOneof('automated_stopping_spec') or 'default_stopping_spec'",
           "if spec_name == 'default_stopping_spec':\n    early_stop_request_proto.algorithm = 'RANDOM_SEARCH'\nelse:\n    raise ValueError(f'Misconfigured automated_stopping_spec: {study.study_spec}')",
-          'temp_pythia_service = self._select_pythia_service(study_config.pythia_endpoint)',
-          'try:\n    early_stopping_decisions_proto = temp_pythia_service.EarlyStop(early_stop_request_proto)\nexcept Exception as e:' + IND + IND.join(DONE) + IND + 'grpc_util.handle_exception(e, context)'],
+          'try:\n    temp_pythia_service = self._select_pythia_service(study_config.pythia_endpoint)\n    early_stopping_decisions_proto = temp_pythia_service.EarlyStop(early_stop_request_proto)\nexcept Exception as e:' + IND + IND.join(DONE) + IND + 'grpc_util.handle_exception(e, context)'],
          'VCallPythiaOrFinishAndRaise'),
         (['early_stopping_decisions = svz.EarlyStopConverter.from_decisions_proto(early_stopping_decisions_proto)'], None),
-        (['try:\n    with self._study_name_to_lock[study_name]:\n        self.datastore.update_metadata(study_name, svz.metadata_util.make_key_value_list(early_stopping_decisions.metadata.on_study), svz.metadata_util.trial_metadata_to_update_list(early_stopping_decisions.metadata.on_trials))\nexcept KeyError as e:'
+        (['try:\n    with self._study_name_to_lock[study_name]:\n        self.datastore.update_metadata(study_name, svz.metadata_util.make_key_value_list(early_stopping_decisions.metadata.on_study), svz.metadata_util.trial_metadata_to_update_list(early_stopping_decisions.metadata.on_trials))\nexcept (KeyError, ValueError) as e:'
           + IND + IND.join(DONE) + IND + 'grpc_util.handle_exception(e, context)'], 'VUpdateMdOrFinishAndRaise'),
         (['for early_stopping_decision in early_stopping_decisions.decisions:\n'
           '    inner_op_name = resources.EarlyStoppingOperationResource(trial_resource.owner_id, trial_resource.study_id, early_stopping_decision.id).name\n'
